@@ -2,7 +2,7 @@
 from .common import *
 
 SIDECARS = ["modbus", "protocol_cmd", "protocol_sm"]
-PROPS = ("C04", "C05", "C06", "C07", "C08", "C09", "C10", "C01", "C03")
+PROPS = ("C04", "C05", "C06", "C07", "C08", "C09", "C10", "C01", "C03", "C18", "C20")
 H = "pyvc.protocol_harness"
 CALLBACKS = {"udp": ("datagram_received", "error_received", "connection_lost", "_timeout_mechanism"),
              "tcp": ("data_received", "error_received", "connection_lost", "eof_received", "_timeout_mechanism")}
@@ -23,6 +23,23 @@ def protocol_units(tier):
                             tier, {"kind": kind, "case": case, "entry": entry}))
         out.append(("script", SIDECARS, H, "execute_segment", f"{kind}.execute", PROPS, tier, {"kind": kind}))
         out.append(("script", SIDECARS, H, "close_segment", f"{kind}.close", PROPS, tier, {"kind": kind}))
+    if tier == "thorough":
+        out += sweep_units()
+    return out
+
+
+def sweep_units():
+    """thorough tier, BOUNDED stand-in next to the proofs: every fault script of length retries+1 (retries 0..4) over a
+    10-letter alphabet on the real protocol classes and a virtual-clock event loop, judged against the statements
+    themselves.  It cross-checks the trusted asyncio model T4 and decides the real-time clauses (spacing of
+    retransmissions, moment of the failure report) that the segment proofs leave to T4."""
+    out = []
+    for kind in ("udp", "tcp"):
+        for retries in (0, 1, 2, 3, 4):
+            for ka in (False, True):
+                out.append(("native", SIDECARS, "contracts.protocol_native", "fault_script_sweep",
+                            f"sweep:{kind}.r{retries}.{'ka' if ka else 'nka'}", PROPS,
+                            {"kind": kind, "retries": retries, "keep_alive": ka}))
     return out
 
 
@@ -34,7 +51,7 @@ def binding_units(tier):
     """the validator each command class carries, on the command built by its real constructor (C01; its raises-only
     clause is also what the transport state machine assumes of `command.validator`)"""
     from pyvc.protocol_harness import BINDING_CLASSES
-    return [("script", SIDECARS, H, "command_binding", f"binding:{c}", ("C01", "C02", "C04"), tier, {"clsname": c})
+    return [("script", SIDECARS, H, "command_binding", f"binding:{c}", ("C01", "C02", "C04", "C09"), tier, {"clsname": c})
             for c in BINDING_CLASSES]
 
 
